@@ -37,6 +37,8 @@ pub struct Captured {
     pub rotation: Vec<u8>,
     pub node_info: Vec<u8>,
     pub data: Vec<u8>,
+    /// genuine ping / pong / peng of an exchange between two OTHER trusted nodes (same key), recorded elsewhere
+    pub foreign: [Vec<u8>; 3],
 }
 
 pub struct Lab {
@@ -50,6 +52,8 @@ pub struct Lab {
     pub stranger: SocketAddr,
 }
 
+/// number of genuine datagram kinds a lab offers (6 of the lab's own exchanges + 3 foreign handshake messages)
+pub const KINDS: usize = 9;
 pub const T: usize = 0;
 pub const P: usize = 1;
 pub const Q: usize = 2;
@@ -115,6 +119,22 @@ impl Lab {
                 cap.node_info = d.data.clone();
             }
         }
+        // an exchange between two other trusted nodes, recorded by the outsider somewhere else
+        {
+            let mut twin: NetSim<Frame> = NetSim::new();
+            twin.now = sim.now;
+            vpncloud::util::MockTimeSource::set_time(sim.now);
+            twin.add_node_at(&cfg, false, "[fd00::71]:3301".parse().unwrap());
+            twin.add_node_at(&cfg, false, "[fd00::72]:3302".parse().unwrap());
+            twin.record = true;
+            let b = twin.addr(1);
+            twin.connect(0, b);
+            twin.settle();
+            let hs: Vec<Vec<u8>> = twin.wire_log.iter().filter(|d| d.data.first() == Some(&0xff)).map(|d| d.data.clone()).collect();
+            for (i, m) in hs.into_iter().take(3).enumerate() {
+                cap.foreign[i] = m;
+            }
+        }
         let mut lab = Lab { sim, t: T, p: P, q: Q, state, cap, stranger: "[fd00::dead]:4444".parse().unwrap() };
         if lab.established() {
             // a data datagram P -> T
@@ -167,13 +187,14 @@ impl Lab {
     }
 
     pub fn genuine(&self, kind: usize) -> &Vec<u8> {
-        match kind % 6 {
+        match kind % KINDS {
             0 => &self.cap.ping,
             1 => &self.cap.pong,
             2 => &self.cap.peng,
             3 => &self.cap.data,
             4 => &self.cap.node_info,
-            _ => &self.cap.rotation,
+            5 => &self.cap.rotation,
+            k => &self.cap.foreign[k - 6],
         }
     }
 
@@ -181,6 +202,37 @@ impl Lab {
     pub fn observe(&mut self) -> String {
         let inflight: Vec<u64> = self.sim.inflight.iter().map(|d| d.id).collect();
         format!("{} inflight={:?}", self.sim.snapshot(T), inflight)
+    }
+
+    /// Weaker closing check used when verbatim replays were part of the batch (they may legitimately disturb a
+    /// handshake in progress): the node is alive and its healthy connection to Q still carries payload both ways.
+    pub fn probe_q(&mut self) -> Result<(), String> {
+        if !self.sim.panics.is_empty() {
+            return Err(format!("node panicked: {:?}", self.sim.panics[0]));
+        }
+        self.sim.settle();
+        if !(self.sim.is_connected(T, Q) && self.sim.is_connected(Q, T)) {
+            return Err("T lost its healthy peer Q".into());
+        }
+        for n in 0..3 {
+            self.sim.take_iface(n);
+        }
+        let f1 = eth_frame([2, 0, 0, 0, 0, 3], [2, 0, 0, 0, 0, 1], None, b"probe T->Q");
+        self.sim.put_payload(T, f1.clone());
+        self.sim.settle();
+        if !self.sim.take_iface(Q).contains(&f1) {
+            return Err("probe frame from T did not reach its healthy peer Q".into());
+        }
+        let f2 = eth_frame([2, 0, 0, 0, 0, 1], [2, 0, 0, 0, 0, 3], None, b"probe Q->T");
+        self.sim.put_payload(Q, f2.clone());
+        self.sim.settle();
+        if !self.sim.take_iface(T).contains(&f2) {
+            return Err("probe frame from the healthy peer Q did not reach T".into());
+        }
+        if !self.sim.panics.is_empty() {
+            return Err(format!("node panicked: {:?}", self.sim.panics[0]));
+        }
+        Ok(())
     }
 
     /// After the injections: the held genuine handshake completes, T and P (and Q) are connected and a probe
